@@ -5,6 +5,9 @@ import Mathlib.Tactic.Ring
 import Mathlib.Tactic.Linarith
 import Mathlib.Tactic.NormNum
 import Mathlib.Data.Nat.ModEq
+import Mathlib.Data.Nat.Sqrt
+import Mathlib.Tactic.Zify
+import Mathlib.Tactic.LinearCombination
 namespace Mpir.Root
 open Mpir Mpir.Gen.SqrtTabs
 
@@ -247,6 +250,285 @@ theorem perfsqrFold_spec (r : Nat) (hr : r < B) :
   simp only [B_eq] at hr
   norm_num
   omega
+
+
+
+/-! ### square roots: characterisation, denormalisation, the wrapper -/
+
+
+/-- characterisation used everywhere: `N = s² + r`, `r ≤ 2s` pins down `s = ⌊√N⌋`. -/
+theorem sqrt_of_rem {N s r : Nat} (h : s * s + r = N) (hr : r ≤ 2 * s) :
+    s = Nat.sqrt N ∧ r = N - Nat.sqrt N * Nat.sqrt N := by
+  have hs : s = Nat.sqrt N := by
+    apply Nat.eq_sqrt.mpr
+    constructor <;> nlinarith
+  subst hs
+  exact ⟨rfl, by omega⟩
+
+/-- denormalisation (sqrtrem.c:322-347): from the root/remainder of `u·2^(2k)` to those of `u`. -/
+theorem denorm (u k S R : Nat) (hS : S * S + R = u * 2 ^ (2 * k)) (hR : R ≤ 2 * S) :
+    S / 2 ^ k = Nat.sqrt u ∧
+    (R + 2 * (S % 2 ^ k) * S - (S % 2 ^ k) * (S % 2 ^ k)) / 2 ^ (2 * k) = u - Nat.sqrt u * Nat.sqrt u := by
+  have hK : 0 < 2 ^ k := by positivity
+  generalize hKe : 2 ^ k = K at *
+  have hK2 : 2 ^ (2 * k) = K * K := by rw [Nat.mul_comm, pow_mul, hKe]; ring
+  rw [hK2] at hS ⊢
+  obtain ⟨S1, s0, hdec, hs0⟩ : ∃ S1 s0, S = S1 * K + s0 ∧ s0 < K :=
+    ⟨S / K, S % K, by rw [Nat.mul_comm]; exact (Nat.div_add_mod S K).symm, Nat.mod_lt _ hK⟩
+  have e1 : S / K = S1 := by
+    rw [hdec, Nat.mul_comm, Nat.mul_add_div hK, Nat.div_eq_of_lt hs0, Nat.add_zero]
+  have e2 : S % K = s0 := by
+    rw [hdec, Nat.mul_comm, Nat.mul_add_mod, Nat.mod_eq_of_lt hs0]
+  rw [e1, e2]
+  -- S1² ≤ u < (S1+1)²
+  have hle : S1 * S1 ≤ u := by
+    by_contra hc
+    have hc := Nat.lt_of_not_le hc
+    have : (S1 * S1) * (K * K) ≥ (u + 1) * (K * K) := Nat.mul_le_mul_right _ hc
+    nlinarith
+  have hlt : u < (S1 + 1) * (S1 + 1) := by
+    by_contra hc
+    have hc := Nat.le_of_not_lt hc
+    have h1 : (S1 + 1) * (S1 + 1) * (K * K) ≤ u * (K * K) := Nat.mul_le_mul_right _ hc
+    have h2 : S + 1 ≤ (S1 + 1) * K := by nlinarith
+    have h3 : (S + 1) * (S + 1) ≤ ((S1 + 1) * K) * ((S1 + 1) * K) := Nat.mul_le_mul h2 h2
+    nlinarith
+  have hsq : S1 = Nat.sqrt u := Nat.eq_sqrt.mpr ⟨hle, hlt⟩
+  refine ⟨hsq, ?_⟩
+  rw [← hsq]
+  obtain ⟨d, hd⟩ := Nat.exists_eq_add_of_le hle
+  have key : R + 2 * s0 * S = d * (K * K) + s0 * s0 := by
+    subst hdec; subst hd
+    zify at hS ⊢
+    linear_combination hS
+  rw [key, Nat.add_sub_cancel, Nat.mul_div_cancel _ (Nat.mul_pos hK hK), hd, Nat.add_sub_cancel_left]
+
+
+theorem bitLen_spec (h : Nat) (hp : 0 < h) : 2 ^ (bitLen h - 1) ≤ h ∧ h < 2 ^ bitLen h ∧ 0 < bitLen h := by
+  unfold bitLen
+  rw [if_neg (by omega)]
+  exact ⟨by simpa using Nat.log2_self_le (by omega), by simpa using Nat.lt_log2_self, by omega⟩
+
+/-- the even shift count of mpn_sqrtrem normalises the high limb: `B/4 ≤ high·2^(2c) < B`. -/
+theorem clz_half_norm (h : Nat) (hp : 0 < h) (hB : h < B) :
+    2 ^ 62 ≤ h * 2 ^ (2 * (clz h / 2)) ∧ h * 2 ^ (2 * (clz h / 2)) < 2 ^ 64 ∧ clz h / 2 ≤ 31 ∧
+    (h + 1) * 2 ^ (2 * (clz h / 2)) ≤ 2 ^ 64 := by
+  obtain ⟨h1, h2, h3⟩ := bitLen_spec h hp
+  have hL : bitLen h ≤ 64 := by
+    by_contra hc
+    have : 2 ^ 64 ≤ 2 ^ (bitLen h - 1) := Nat.pow_le_pow_right (by norm_num) (by omega)
+    unfold B at hB; omega
+  unfold clz
+  generalize bitLen h = L at *
+  set c := (64 - L) / 2 with hc
+  refine ⟨?_, ?_, by omega, ?_⟩
+  · calc 2 ^ 62 ≤ 2 ^ (L - 1 + 2 * c) := Nat.pow_le_pow_right (by norm_num) (by omega)
+      _ = 2 ^ (L - 1) * 2 ^ (2 * c) := by rw [pow_add]
+      _ ≤ h * 2 ^ (2 * c) := Nat.mul_le_mul_right _ h1
+  · calc h * 2 ^ (2 * c) < 2 ^ L * 2 ^ (2 * c) := Nat.mul_lt_mul_of_pos_right h2 (by positivity)
+      _ = 2 ^ (L + 2 * c) := by rw [pow_add]
+      _ ≤ 2 ^ 64 := Nat.pow_le_pow_right (by norm_num) (by omega)
+  · calc (h + 1) * 2 ^ (2 * c) ≤ 2 ^ L * 2 ^ (2 * c) := Nat.mul_le_mul_right _ h2
+      _ = 2 ^ (L + 2 * c) := by rw [pow_add]
+      _ ≤ 2 ^ 64 := Nat.pow_le_pow_right (by norm_num) (by omega)
+
+/-- the contract of mpn_dc_sqrtrem on a normalised operand `B^(2n)/4 ≤ N < B^(2n)`. -/
+def DcSpec : Prop := ∀ n N, 0 < n → B ^ (2 * n) ≤ 4 * N → N < B ^ (2 * n) →
+  (dcSqrtrem n N).1 * (dcSqrtrem n N).1 + (dcSqrtrem n N).2 = N ∧ (dcSqrtrem n N).2 ≤ 2 * (dcSqrtrem n N).1
+
+theorem sqrtremVal_norm (u nn high : Nat) (hnn : 0 < nn) (hu1 : high * B ^ (nn - 1) ≤ u)
+    (hu2 : u < (high + 1) * B ^ (nn - 1)) (hp : 0 < high) (hB : high < B)
+    (hbr : ¬(nn = 1 ∧ high ≥ B / 2)) (hdc : DcSpec) :
+    sqrtremVal u nn high = (Nat.sqrt u, u - Nat.sqrt u * Nat.sqrt u) := by
+  obtain ⟨c1, c2, c3, c4⟩ := clz_half_norm high hp hB
+  unfold sqrtremVal
+  rw [if_neg hbr]
+  dsimp only
+  generalize hc : clz high / 2 = c at *
+  have hBpow : ∀ m, B ^ m = 2 ^ (64 * m) := fun m => by unfold B; rw [pow_mul]
+  have hBm : 0 < B ^ (nn - 1) := pow_pos B_pos _
+  by_cases hcase : nn % 2 ≠ 0 ∨ c > 0
+  · rw [if_pos hcase]
+    -- the normalised operand and its shape u·2^(2k)
+    set tn := (nn + 1) / 2 with htn
+    set k := c + nn % 2 * 64 / 2 with hk
+    have hk63 : k ≤ 63 := by have := Nat.mod_lt nn (by norm_num : 0 < 2); omega
+    have hT : (u <<< (2 * c)) * B ^ (2 * tn - nn) = u * 2 ^ (2 * k) := by
+      rw [Nat.shiftLeft_eq, hBpow, Nat.mul_assoc, ← pow_add]
+      congr 2; omega
+    have hTn : B ^ (2 * tn) = 2 ^ (2 * k) * (2 ^ (64 - 2 * c) * B ^ (nn - 1)) := by
+      rw [hBpow, hBpow, ← pow_add, ← pow_add]; congr 1; omega
+    have h64 : (2:Nat) ^ 64 = 2 ^ (2 * c) * 2 ^ (64 - 2 * c) := by rw [← pow_add]; congr 1; omega
+    have hpc : 0 < 2 ^ (2 * c) := by positivity
+    have hlo : 2 ^ (64 - 2 * c) ≤ 4 * high := by
+      have : 2 ^ (2 * c) * 2 ^ (64 - 2 * c) ≤ 2 ^ (2 * c) * (4 * high) := by rw [← h64]; nlinarith
+      exact Nat.le_of_mul_le_mul_left this hpc
+    have hhi : high + 1 ≤ 2 ^ (64 - 2 * c) := by
+      have : 2 ^ (2 * c) * (high + 1) ≤ 2 ^ (2 * c) * 2 ^ (64 - 2 * c) := by rw [← h64]; nlinarith
+      exact Nat.le_of_mul_le_mul_left this hpc
+    rw [hT]
+    have hN1 : B ^ (2 * tn) ≤ 4 * (u * 2 ^ (2 * k)) := by
+      rw [hTn]
+      have : 2 ^ (64 - 2 * c) * B ^ (nn - 1) ≤ 4 * u := by nlinarith
+      nlinarith [Nat.mul_le_mul_left (2 ^ (2 * k)) this]
+    have hN2 : u * 2 ^ (2 * k) < B ^ (2 * tn) := by
+      rw [hTn]
+      have : u < 2 ^ (64 - 2 * c) * B ^ (nn - 1) := by nlinarith
+      nlinarith [Nat.mul_lt_mul_of_pos_left this (by positivity : 0 < 2 ^ (2 * k))]
+    obtain ⟨e1, e2⟩ := hdc tn (u * 2 ^ (2 * k)) (by omega) hN1 hN2
+    generalize dcSqrtrem tn (u * 2 ^ (2 * k)) = res at *
+    obtain ⟨S, R⟩ := res
+    simp only at e1 e2 ⊢
+    rw [and_mask _ _ hk63, Nat.shiftRight_eq_div_pow, Nat.shiftRight_eq_div_pow]
+    obtain ⟨d1, d2⟩ := denorm u k S R e1 e2
+    rw [d1, d2]
+  · rw [if_neg hcase]
+    have hc0 : c = 0 := by omega
+    have hev : nn % 2 = 0 := by omega
+    subst hc0
+    simp only [Nat.mul_zero, pow_zero, Nat.mul_one] at c1 c4
+    have hnn2 : 2 * ((nn + 1) / 2) = (nn - 1) + 1 := by omega
+    have hBn : B ^ (2 * ((nn + 1) / 2)) = B * B ^ (nn - 1) := by rw [hnn2, pow_succ]; ring
+    have hB64 : B = 2 ^ 64 := rfl
+    have g1 : B ^ (2 * ((nn + 1) / 2)) ≤ 4 * u := by
+      rw [hBn]; generalize B ^ (nn - 1) = P at *; rw [hB64]
+      nlinarith [Nat.mul_le_mul_right P c1]
+    have g2 : u < B ^ (2 * ((nn + 1) / 2)) := by
+      rw [hBn]; generalize B ^ (nn - 1) = P at *; rw [hB64]
+      nlinarith [Nat.mul_le_mul_right P c4]
+    obtain ⟨e1, e2⟩ := hdc ((nn + 1) / 2) u (by omega) g1 g2
+    generalize dcSqrtrem ((nn + 1) / 2) u = res at *
+    obtain ⟨S, R⟩ := res
+    simp only at e1 e2
+    obtain ⟨d1, d2⟩ := sqrt_of_rem e1 e2
+    rw [← d1] at d2 ⊢; rw [← d2]
+
+
+/-! ### iroot, mpz_root & co -/
+
+
+theorem irootGo_spec (n u : Nat) : ∀ (i t : Nat), t ^ n ≤ u → u < (t + 2 ^ i) ^ n →
+    (irootGo n u i t) ^ n ≤ u ∧ u < (irootGo n u i t + 1) ^ n
+  | 0, t, h1, h2 => by simpa [irootGo] using ⟨h1, h2⟩
+  | i + 1, t, h1, h2 => by
+    unfold irootGo
+    split
+    · next h => exact irootGo_spec n u i _ h (by rw [Nat.add_assoc, ← Nat.two_mul, ← pow_succ']; exact h2)
+    · next h => exact irootGo_spec n u i _ h1 (Nat.lt_of_not_le h)
+
+/-- the specification function is the floor n-th root. -/
+theorem iroot_spec (n u : Nat) (hn : 0 < n) : (iroot n u) ^ n ≤ u ∧ u < (iroot n u + 1) ^ n := by
+  unfold iroot
+  split
+  · next h =>
+    split
+    · next h0 => subst h0; simp [Nat.ne_of_gt hn]
+    · next h0 =>
+      refine ⟨by simp; omega, ?_⟩
+      calc u < 2 ^ (u.log2 + 1) := Nat.lt_log2_self
+        _ ≤ 2 ^ n := Nat.pow_le_pow_right (by norm_num) h
+        _ = (1 + 1) ^ n := by norm_num
+  · apply irootGo_spec
+    · simp [Nat.ne_of_gt hn]
+    · rw [Nat.zero_add, ← pow_mul]
+      calc u < 2 ^ (u.log2 + 1) := Nat.lt_log2_self
+        _ ≤ 2 ^ ((u.log2 / n + 1) * n) := by
+            apply Nat.pow_le_pow_right (by norm_num)
+            have := Nat.div_add_mod u.log2 n
+            have := Nat.mod_lt u.log2 hn
+            nlinarith
+
+theorem iroot_unique (n u t : Nat) (hn : 0 < n) (h1 : t ^ n ≤ u) (h2 : u < (t + 1) ^ n) : t = iroot n u := by
+  obtain ⟨s1, s2⟩ := iroot_spec n u hn
+  rcases Nat.lt_trichotomy t (iroot n u) with h | h | h
+  · exact absurd (Nat.lt_of_lt_of_le h2 (Nat.le_trans (Nat.pow_le_pow_left h n) s1)) (Nat.lt_irrefl _)
+  · exact h
+  · exact absurd (Nat.lt_of_lt_of_le s2 (Nat.le_trans (Nat.pow_le_pow_left h n) h1)) (Nat.lt_irrefl _)
+
+theorem iroot_one (u : Nat) : iroot 1 u = u := (iroot_unique 1 u u (by norm_num) (by simp) (by simp)).symm
+
+theorem iroot_two (u : Nat) : iroot 2 u = Nat.sqrt u :=
+  (iroot_unique 2 u _ (by norm_num) (by rw [pow_two]; exact Nat.sqrt_le u)
+    (by rw [pow_two]; exact Nat.lt_succ_sqrt u)).symm
+
+theorem irootFast_eq (n u : Nat) : irootFast n u = iroot n u := by
+  unfold irootFast
+  split
+  · next h => subst h; exact (iroot_one u).symm
+  · split
+    · next h => subst h; exact (iroot_two u).symm
+    · rfl
+
+theorem iroot_zero (n : Nat) (hn : 0 < n) : iroot n 0 = 0 := by
+  have := (iroot_spec n 0 hn).1
+  exact (Nat.pow_eq_zero.mp (Nat.le_zero.mp this)).1
+
+theorem powS_eq (t n : Nat) : powS t n = t ^ n := by
+  unfold powS
+  split
+  · next h => subst h; simp
+  · next h =>
+    split
+    · next h1 =>
+      have : t = 0 ∨ t = 1 := by omega
+      rcases this with rfl | rfl <;> simp [h]
+    · rfl
+
+
+/-- the contract of mpn_rootrem ({up, un}, k) for `k ≥ 2` on a normalised operand: truncated root; the
+    second component is zero exactly for perfect k-th powers, and is the remainder when `remp ≠ NULL`. -/
+def RootremSpec : Prop := ∀ a k w, 0 < a → 2 ≤ k →
+  (rootrem a (limbCount a) k w).1 = iroot k a ∧
+  ((rootrem a (limbCount a) k w).2 = 0 ↔ (iroot k a) ^ k = a) ∧
+  (w = true → (rootrem a (limbCount a) k w).2 = a - (iroot k a) ^ k)
+
+/-- mpz/root.c, nthroot.c, rootrem.c common part: the two exceptions. -/
+theorem mpzRootCore_exc (u : Int) (n : Nat) (w : Bool) :
+    (u < 0 ∧ n % 2 = 0 → mpzRootCore u n w = .error "sqrtneg") ∧
+    (¬(u < 0 ∧ n % 2 = 0) → n = 0 → mpzRootCore u n w = .error "div0") := by
+  unfold mpzRootCore
+  constructor
+  · intro h; rw [if_pos h]
+  · intro h h0; rw [if_neg h, if_pos h0]
+
+/-- mpz/root.c, nthroot.c, rootrem.c common part: zero, n = 1, sign of root and remainder, flag. -/
+theorem mpzRootCore_ok (u : Int) (n : Nat) (w : Bool) (hrr : RootremSpec)
+    (h1 : ¬(u < 0 ∧ n % 2 = 0)) (h2 : n ≠ 0) :
+    ∃ rem : Int, mpzRootCore u n w =
+        .ok (u.sign * (iroot n u.natAbs : Nat), rem, decide ((iroot n u.natAbs) ^ n = u.natAbs)) ∧
+      (w = true → rem = u.sign * ((u.natAbs - (iroot n u.natAbs) ^ n : Nat) : Int)) := by
+  unfold mpzRootCore
+  have hn : 0 < n := Nat.pos_of_ne_zero h2
+  rw [if_neg h1, if_neg h2]
+  by_cases h3 : u = 0
+  · subst h3
+    exact ⟨0, by simp [iroot_zero n hn, h2], by simp⟩
+  · have ha : 0 < u.natAbs := Int.natAbs_pos.mpr h3
+    have hsg : (if u < 0 then (-1 : Int) else 1) = u.sign := by
+      rcases lt_trichotomy u 0 with h | h | h
+      · simp [h, Int.sign_eq_neg_one_of_neg h]
+      · exact absurd h h3
+      · simp [not_lt.mpr (le_of_lt h), Int.sign_eq_one_of_pos h]
+    rw [if_neg h3]
+    dsimp only
+    by_cases h4 : n = 1
+    · subst h4
+      exact ⟨0, by simp [hsg, iroot_one], by simp [iroot_one]⟩
+    · obtain ⟨r1, r2, r3⟩ := hrr u.natAbs n w ha (by omega)
+      rw [if_neg h4]
+      generalize rootrem u.natAbs (limbCount u.natAbs) n w = res at *
+      obtain ⟨root, rem⟩ := res
+      simp only at r1 r2 r3
+      subst r1
+      have hb : (rem == 0) = decide (iroot n u.natAbs ^ n = u.natAbs) := by
+        by_cases h5 : rem = 0
+        · simp [h5, r2.mp h5]
+        · have h6 : ¬ iroot n u.natAbs ^ n = u.natAbs := fun h => h5 (r2.mpr h)
+          simp [h5, h6]
+      refine ⟨u.sign * (rem : Int), ?_, fun hw => by rw [r3 hw]⟩
+      show Except.ok ((if u < 0 then (-1 : Int) else 1) * ((iroot n u.natAbs : Nat) : Int),
+        (if u < 0 then (-1 : Int) else 1) * (rem : Int), rem == 0) = _
+      rw [hsg, hb]
 
 
 end Mpir.Root
